@@ -181,7 +181,7 @@ theorem checkLine_ok {ver w : Nat} {shares : List Bytes} : ∀ {coords : List (N
         · intro p hp x hx
           rcases List.mem_cons.mp hx with rfl | hx
           · exact ord1 p hp
-          · exact leB_trans (ord1 p hp) (ord2 sh.ns rfl x hx)
+          · exact Lumina.Proofs.NmtOrder.leB_trans (ord1 p hp) (ord2 sh.ns rfl x hx)
 
 /-- the shares of line `i` of direction `ax` -/
 def lineCells (w : Nat) (shares : List Bytes) (ax : Axis) (i : Nat) : List Share :=
